@@ -477,6 +477,20 @@ def _check_files(res: Result, proj: Project, w: World):
                 f"read back {w.raw_dataset(back)}" if st2 == "ok" else f"reading raised {back}")
         res.check(good, "P4", f"Dataset.write/from_file:{label}", wr.loc(),
                   ok_detail="written then read back equal", bad_detail=detail)
+    # files that are not well-formed: read or refused with ValueError (a file without any ranking: the documented
+    # EmptyDatasetException), never another failure
+    bad = None
+    malformed = ["[{1}, {2}\n", "[1, 2, 3]\n", "hello world\n", "[{1},,{2}]\n", "[{a}, {b}]\n[{a}\n", "[{1}, {1}]\n",
+                 "[{1}]\n[{x}, {y}\n", "{{1}}\n", "[{}]\n[{2}]\n", "\n\n", ""]
+    for k_, content in enumerate(malformed):
+        path = f"/dir/malformed{k_}.txt"
+        fs.files[path] = content
+        st2, back = w.safe("Dataset.from_file", lambda: w.rt.call_static(w.D, "from_file", path))
+        if not (st2 == "ok" or (st2 == "raise" and back in ("ValueError", "EmptyDatasetException"))) and bad is None:
+            bad = (content, back)
+    res.check(bad is None, "P4", "Dataset.from_file:malformed-files", rd.loc(),
+              ok_detail=f"{len(malformed)} malformed files: each is read or refused with ValueError",
+              bad_detail=f"file content {bad[0]!r}: reading fails with {bad[1]}" if bad else "")
     # reader filter vs shortest writer line: the writer emits str(<list of sets>), at least the 2 characters '[]'
     ks = []
     for n in ast.walk(rd.node):
